@@ -77,3 +77,93 @@ def run(unit, em):
                 em.unknown(c, txt, 'origin of the stored TuplePtr not resolved')
             else:
                 em.ok(c, txt, cl)
+                run_h2(unit, fn, em, c, arg, cl)
+
+
+# ---- H2: a stored TuplePtr is the representative of the *destination's* tuple cache ------------------
+AUTCORE = 'ExplicitTreeAutCore'
+
+
+def owner_roots(unit, fn, e, depth=0, seen=None):
+    """automata an expression's value is taken from: {'this'} | {('param', d)} | {('local', d)}; TuplePtr
+    parameters give ('ptrparam', d)"""
+    seen = seen if seen is not None else set()
+    out = set()
+    if not is_node(e) or depth > 10:
+        return out
+    vt = var_table(fn)
+    for n in walk(e, lambdas=False):
+        k = n['k']
+        if k == 'CXXThisExpr':
+            out.add('this')
+        elif k == 'DeclRefExpr' and n.get('d') in vt and n['d'] not in seen:
+            seen.add(n['d'])
+            v = vt[n['d']]
+            t = unit.ty(v['decl']).replace('const ', '').replace('VATA::', '')
+            if v['kind'] == 'param':
+                out.add(('param', n['d']) if t.startswith(AUTCORE) else ('ptrparam', n['d']))
+            elif v['kind'] == 'rangevar':
+                out |= owner_roots(unit, fn, v['node'].get('range'), depth + 1, seen)
+            elif v['kind'] == 'local':
+                if t.startswith(AUTCORE) and not t.rstrip().endswith(('&', '*')):
+                    out.add(('local', n['d']))
+                else:
+                    for s in local_sources(fn, n['d']):
+                        out |= owner_roots(unit, fn, s, depth + 1, seen)
+                    # containers: what was put into them
+                    for m in fn.walk(lambdas=False):
+                        if m['k'] == 'CXXMemberCallExpr' and method_name(m) in ('push_back', 'insert', 'emplace_back', 'emplace', 'push_front'):
+                            o = strip(m.get('obj'))
+                            while o is not None and o['k'] in ('CXXOperatorCallExpr',) and o.get('op') == '[]' and o.get('args'):
+                                o = strip(o['args'][0])
+                            if o is not None and o['k'] == 'DeclRefExpr' and o.get('d') == n['d']:
+                                for a in m.get('args') or []:
+                                    out |= owner_roots(unit, fn, a, depth + 1, seen)
+    return out
+
+
+def same_cache_evidence(unit, fn, dest, src):
+    """dest = ('local', d): its constructor received src's cache_ or src itself"""
+    vt = var_table(fn)
+    v = vt.get(dest[1])
+    init = strip(v['decl'].get('init')) if v and is_node(v['decl'].get('init')) else None
+    if init is None:
+        return False
+    for a in init.get('args') or []:
+        if not is_node(a) or a['k'] == 'CXXDefaultArgExpr':
+            continue
+        r = owner_roots(unit, fn, a)
+        ta = unit.ty(strip(a) or a)
+        if src in r and ('Cache<' in ta or AUTCORE in ta):
+            return True
+    return False
+
+
+def run_h2(unit, fn, em, c, arg, cl):
+    if not cl.startswith('existing'):
+        return
+    dst = owner_roots(unit, fn, c.get('obj'))
+    srcs = owner_roots(unit, fn, arg)
+    txt = unit.text(c, 80)
+    if any(isinstance(s, tuple) and s[0] == 'ptrparam' for s in srcs) and not (srcs - {s for s in srcs if isinstance(s, tuple) and s[0] == 'ptrparam'}):
+        em.ok(c, txt, 'TuplePtr parameter: representative established at the call sites', 'H2')
+        return
+    srcs = {s for s in srcs if not (isinstance(s, tuple) and s[0] == 'ptrparam')}
+    if not dst or not srcs:
+        em.unknown(c, txt, 'owner of the tuple set / of the stored pointer not resolved', 'H2')
+        return
+    bad = []
+    for d in dst:
+        for s in srcs:
+            if d == s:
+                continue
+            if isinstance(d, tuple) and d[0] == 'local' and same_cache_evidence(unit, fn, d, s):
+                continue
+            bad.append((d, s))
+    if not bad:
+        em.ok(c, txt, 'source and destination share one tuple cache (same automaton, or the destination was constructed with the source\'s cache)', 'H2')
+    else:
+        vt = var_table(fn)
+        nm = lambda x: 'this' if x == 'this' else (vt[x[1]]['decl'].get('n') or '?')
+        d, s = bad[0]
+        em.violation(c, txt, 'a TuplePtr taken from `%s` is stored in a tuple set of `%s` without %s.tupleLookup(): the two automata may use different tuple caches, and tuple sets / ContainsTransition compare pointers, so the rule is not found and can be duplicated' % (nm(s), nm(d), nm(d)), 'H2')
